@@ -15,7 +15,7 @@ import (
 type servers struct {
 	srv   *httptest.Server
 	jwks  []byte
-	calls struct{ jwks, introspect, identity atomic.Int64 }
+	calls struct{ jwks, introspect, identity, metadata atomic.Int64 }
 }
 
 const farFuture = 4102444800 // 2100-01-01
@@ -25,6 +25,7 @@ func newServers(jwks []byte) *servers {
 	s := &servers{jwks: jwks}
 	mux := http.NewServeMux()
 	mux.HandleFunc("/jwks/", s.handleJWKS)
+	mux.HandleFunc("/meta/", s.handleMetadata)
 	mux.HandleFunc("/introspect", s.handleIntrospect)
 	mux.HandleFunc("/identity", s.handleIdentity)
 	s.srv = httptest.NewServer(mux)
@@ -68,6 +69,23 @@ func (s *servers) handleJWKS(w http.ResponseWriter, r *http.Request) {
 	default:
 		w.Header().Set("Content-Type", "application/json")
 		_, _ = w.Write(s.jwks)
+	}
+}
+
+// handleMetadata: OAuth2 authorization server metadata per issuer (tenant): /meta/<issuer>/.well-known/openid-configuration.
+// Only the issuers this installation knows have a document; the endpoints named there are the ones above.
+func (s *servers) handleMetadata(w http.ResponseWriter, r *http.Request) {
+	s.calls.metadata.Add(1)
+	iss, ok := strings.CutSuffix(strings.TrimPrefix(r.URL.Path, "/meta/"), "/.well-known/openid-configuration")
+	switch {
+	case !ok:
+		w.WriteHeader(http.StatusNotFound)
+	case iss == issMeta500:
+		w.WriteHeader(http.StatusInternalServerError)
+	case iss == issOK || iss == iss500 || iss == issGarbage || iss == issDrop:
+		writeJSON(w, 200, map[string]any{"issuer": iss, "jwks_uri": s.srv.URL + "/jwks/" + iss, "introspection_endpoint": s.srv.URL + "/introspect"})
+	default:
+		w.WriteHeader(http.StatusNotFound)
 	}
 }
 
